@@ -7,7 +7,8 @@ A case is one JSON value:
      "place": [mask, ...],                    # per object: non-empty set of members holding a copy (bit i = member i; taken modulo)
      "order": [i, ...], "nest": {"k": n, "front": bool} | null,            # attachment order; the last/first k members wrapped in an inner composite
      "plain": "memory"|"fs",                  # kind of the single store that holds the whole union (route "store"/"source")
-     "probes": [{"p": "query"|"rels"|"related"|"creator", ...}, ...]}
+     "probes": [{"p": "query"|"rels"|"related"|"creator", ...}, ...],
+     "history": [{"m": "detach"|"attach"|"late-add"|"attach-twice", "k": member, "x": pop index}, ...]}   # optional: one live composite across changes
 
 Every case additionally checks get() for every id under every attachment order
 (all permutations for <= 3 members), and all_versions()/query() on the drawn
@@ -336,6 +337,106 @@ class World(object):
                 self.probe_creator(pr, od)
             else:
                 raise core.HarnessError("unknown probe %r" % pr["p"])
+        if self.case.get("history"):
+            self.run_history(order)
+
+    # ---- one live composite across membership changes and late additions --------------------------------------------------
+    def run_history(self, order):
+        """The same CompositeDataSource object (flat, no attached filters) is kept while members are detached by id,
+        attached again (in a new position: at the end), attached a second time (documented: ignored) and while a member
+        store receives further objects after attachment.  After every step the composite must answer as the union of the
+        members attached at that moment."""
+        live = self.stix2.CompositeDataSource()
+        live.add_data_sources([self.stores[i].source for i in order])
+        active = list(order)
+        items = [list(x) for x in self.items]
+        n = len(self.stores)
+        for step, h in enumerate(self.case["history"]):
+            k = h.get("k", 0) % n
+            m = h["m"]
+            src = self.stores[k].source
+            if m == "detach":
+                if len(active) <= 1 or k not in active:
+                    continue            # the last member stays: an empty composite refuses to answer (documented AttributeError)
+                _, bad = self._call("remove_data_source", live.remove_data_source, src.id)
+                active.remove(k)
+            elif m == "attach":
+                if k in active:
+                    continue
+                _, bad = self._call("add_data_source", live.add_data_source, src)
+                active.append(k)
+            elif m == "attach-twice":
+                if k not in active:
+                    continue
+                _, bad = self._call("add_data_source", live.add_data_source, src)
+            elif m == "late-add":
+                o = self.case["pop"][h.get("x", 0) % len(self.case["pop"])]
+                if any(M.key_of(o) == M.key_of(p) for p in items[k]):
+                    continue
+                _, bad = self._call("member%d.add" % k, self.stores[k].add, copy.deepcopy(o))
+                items[k].append(o)
+            elif m == "parent-filter":
+                # the live composite is itself a member of a parent (a CompositeDataSource or an Environment, which wraps its source in one)
+                # that carries filters: the parent's answer is the filtered union, and afterwards the live composite is what it was
+                flt = h.get("filters") or []
+                if h.get("via") == "env":
+                    parent = self.stix2.Environment(source=live)
+                    parent.add_filters(S.mk_filters(flt))
+                else:
+                    parent = self.stix2.CompositeDataSource()
+                    parent.add_data_source(live)
+                    parent.filters.add(S.mk_filters(flt))
+                exp = [o for a in active for o in items[a]]
+                um = M.ListModel()
+                for o in exp:
+                    if M.matches(flt, o):
+                        um.add(o)
+                got, bad = self._call("parent.query", parent.query)
+                if not bad and not S.compare_answer("parent (%s) of the live composite with attached filters %s: query()" % (h.get("via"), core.short(flt, 200)),
+                                                    got, um.objs, self.fails, "history:parent-filter:query"):
+                    return
+                sid = self.ids[h.get("x", 0) % len(self.ids)] if self.ids else None
+                if sid and not bad:
+                    got, bad = self._call("parent.all_versions", parent.all_versions, sid)
+                    if not bad and not S.compare_answer("parent (%s) of the live composite with attached filters %s: all_versions(%s)" % (h.get("via"), core.short(flt, 200), sid),
+                                                        got, [o for o in um.objs if o["id"] == sid], self.fails, "history:parent-filter:all-versions"):
+                        return
+            else:
+                raise core.HarnessError("unknown history step %r" % m)
+            if bad:
+                return
+            got_n, _ = self._call("has_data_sources", live.has_data_sources)
+            if got_n is not None and int(got_n) != len(active):
+                self.fails.append(("history:member-count", "after %s the live composite reports %s members, %d attached (history step %d: %s)" % (m, got_n, len(active), step, h)))
+                return
+            union = M.ListModel()
+            for a in active:
+                for o in items[a]:
+                    union.add(o)
+            where = "live composite after step %d %s (attached members %s)" % (step, core.short(h, 80), active)
+            got, bad = self._call("live.query", live.query)
+            if not bad:
+                if not S.compare_answer(where + " query()", got, union.objs, self.fails, "history:query-all:after-" + m):
+                    return
+            all_ids = sorted({o["id"] for it in items for o in it})
+            for sid in all_ids:
+                got, bad = self._call("live.get", live.get, sid)
+                if bad:
+                    continue
+                exp = union.latest(sid) if union.versions(sid) else None
+                g = None if got is None else S.plain(got)
+                if (g is None) != (exp is None) or (g is not None and M.canon(g) != M.canon(exp)):
+                    vs = union.versions(sid)
+                    if g is not None and exp is not None and G.is_dict_kept(exp) and G.text_order_differs(vs) and g.get("modified") == max(v["modified"] for v in vs):
+                        key = "dict-latest-by-text:composite"
+                    else:
+                        key = "history:get:after-%s:%s" % (m, "missing" if g is None else "phantom" if exp is None else "not-newest")
+                    self.fails.append((key, "%s get(%s) returned %s, expected %s" % (where, sid, None if g is None else S.describe([g]), None if exp is None else S.describe([exp]))))
+                    return
+                got, bad = self._call("live.all_versions", live.all_versions, sid)
+                if not bad:
+                    if not S.compare_answer(where + " all_versions(%s)" % sid, got, union.versions(sid), self.fails, "history:all-versions:after-" + m):
+                        return
 
 
 def _plainf(f):
@@ -431,6 +532,10 @@ def analyse(case):
             for f in pr["filters"]:
                 cl.add("filter-route:" + f["route"])
             cl.add("query-route:" + pr.get("route", "composite"))
+    for h in case.get("history") or []:
+        cl.add("history:" + h["m"])
+    if case.get("history"):
+        cl.add("history:present")
     cl.update(G.pool_classes(case["pop"]))
     return (newest_not_first and dup and split_rel), sorted(cl)
 
@@ -506,14 +611,22 @@ def configuration(draw):
                         st.one_of(st.sampled_from([i for i, o in enumerate(pop) if o.get("created_by_ref")] or [0]), st.integers(0, len(pop) - 1)),
                         st.sampled_from(["dict", "object"]), routes, st.integers(0, 5))
     probes = draw(st.lists(st.one_of(nav("rels"), nav("related"), nav("related"), query, creator), min_size=3, max_size=9))
-    return {"pop": pop, "members": members, "place": place, "order": list(order), "nest": nest, "plain": draw(st.sampled_from(["memory", "fs"])), "probes": probes}
+    hist_step = st.one_of(
+        st.fixed_dictionaries({"m": st.sampled_from(["detach", "detach", "attach", "attach", "late-add", "late-add", "attach-twice"]),
+                               "k": st.integers(0, nm - 1), "x": st.integers(0, max(0, len(pop) - 1))}),
+        st.fixed_dictionaries({"m": st.just("parent-filter"), "via": st.sampled_from(["composite", "env"]), "x": st.integers(0, 40),
+                               "filters": G.filter_set(pop, 1, 2, no_ts=True)}))
+    history = draw(st.one_of(st.just([]), st.lists(hist_step, min_size=2, max_size=7)))
+    return {"pop": pop, "members": members, "place": place, "order": list(order), "nest": nest, "plain": draw(st.sampled_from(["memory", "fs"])), "probes": probes,
+            "history": history}
 
 
 REQUIRED_CLASSES = ["newest-version-not-in-first-member", "copy-in-several-members", "relationship-apart-from-endpoint", "nested-composite", "member:fs",
                     "member:memory", "graph:self-loop", "graph:parallel-edges", "graph:relationship-with-several-versions", "probe:query", "probe:rels",
                     "probe:related", "probe:creator", "route:composite", "route:env", "route:store", "route:source", "argform:id", "argform:dict",
                     "argform:object", "argform:absent-id", "nav:both-flags", "nav:source_only", "nav:target_only", "nav:relationship_type", "nav:extra-filters",
-                    "filter-route:arg", "filter-route:comp", "filter-route:member", "query-route:env"]
+                    "filter-route:arg", "filter-route:comp", "filter-route:member", "query-route:env",
+                    "history:detach", "history:attach", "history:late-add", "history:attach-twice", "history:parent-filter"]
 
 
 def run(ctx):
@@ -523,7 +636,9 @@ def run(ctx):
                 "attachment order (get() for every id under all permutations when <= 3 members, 4 orders otherwise) x optional nested composite x 3-9 "
                 "probes: filtered query (filters as argument / attached to the composite / attached to one member), relationships, related_to (+ extra "
                 "filters), creator_of, with object / dict / id-string arguments, through CompositeDataSource, Environment(store=, source=), a plain store "
-                "and its source. Non-trivial = some id has its newest version outside the first member of the order while that member holds an older "
+                "and its source; in half of the cases followed by a history on one live composite (members detached by id, attached again at the end, attached "
+                "twice, objects added to a member after attachment, the live composite queried through a filter-carrying parent composite / Environment) with get / all_versions / query re-checked against the union of the currently attached "
+                "members after every step. Non-trivial = some id has its newest version outside the first member of the order while that member holds an older "
                 "one, some (id, version) is copied to several members, and some relationship sits in a member that lacks one of its (stored) endpoints; "
                 "distinct = distinct case.")
     ctx.assumptions = ["copies of one (id, version) are identical; unversioned objects (SCOs, marking-definitions) have one content per id",
@@ -538,7 +653,7 @@ def run(ctx):
         ctx.note(case, nt, cl)
         ctx.handle(case, fails)
 
-    core.run_given(ctx, configuration(), body, ctx.n(400, 2000), label="c18-configurations")
+    core.run_given(ctx, configuration(), body, ctx.n(340, 2000), label="c18-configurations")
     if ctx.evaluations >= 300:
         core.health(ctx, REQUIRED_CLASSES)
         ctx.notes["generator-health"] = "all %d required classes >= 1%% of evaluations" % len(REQUIRED_CLASSES)
